@@ -489,12 +489,17 @@ From Qryn Require model.ReadConn proofs.ReadConnProofs.   (* qualified: short co
    back by Close(), by reading the rows to the end (`for rows.Next()` left because Next() = false), and for a lent one by
    reading the channel until it is closed; `defer rows.Close()` acts only when the function is left (that is seeded change
    C12-f: the complex processor called from inside the rows loop of the complexity statement, rows still open). Every
-   statement site of the inventory is the acquisition of a flow (or reviewed: the wrapper's own forwarding). *)
+   statement site of the inventory is the acquisition of a flow (or reviewed: the wrapper's own forwarding). AND when the body is left the variable holds nothing its caller does not know
+   about: an open result set only under a registered `defer rows.Close()`, a lent one only if the function returns a channel
+   (its callers' flows then have the call as a lending call); a return with a non-nil error gives the request up; five bodies
+   whose early return ends the request are reviewed (ReadConn.exit_reviewed; no entry is stale). *)
 Theorem no_request_asks_for_a_connection_while_holding_one :
   ReadConn.conn_inventory_ok reader_conn_flows reader_query_sites reader_untracked_lends = true /\
   forall f, In f reader_conn_flows -> forall o st',
     ReadConn.cexec (ReadConn.cf_body f) ReadConn.Free o st' ->
-    o <> ReadConn.COWait /\ (o = ReadConn.CONormal \/ o = ReadConn.COReturn).
+    o <> ReadConn.COWait /\ (o = ReadConn.CONormal \/ o = ReadConn.COReturn) /\
+    (ReadConn.exit_is_reviewed f = false ->
+     ReadConn.exit_state_ok (ReadConn.cf_deferred_close f) (ReadConn.cf_returns_chan f) st' = true).
 Proof.
   split; [vm_compute; reflexivity|]. apply ReadConnProofs.cflows_ok_sound. vm_compute. reflexivity.
 Qed.
